@@ -233,6 +233,7 @@ impl InternalObserver {
 //@|         !old(self).alive() ==> final(self).state == old(self).state && final(self).handlers() == old(self).handlers() && final(state).disallowed_observers@ == old(state).disallowed_observers@ && final(state).num_active_observers == old(state).num_active_observers, // [dead-observer-no-effect]
 //@|         old(self).alive() ==> final(state).num_active_observers == old(state).num_active_observers - 1, // [one-fewer-active-observer]
 //@|         final(self).id == old(self).id && final(self).next_subscriber == old(self).next_subscriber && final(self).node_count() == old(self).node_count(), // [frame]
+//@|         final(self).state == lc_disallow(old(self).state), // [model-step-disallow]
 //@end
 
 //@extract fn InternalObserver::subscribe
@@ -253,7 +254,7 @@ impl InternalObserver {
 //@|         old(self).alive() ==> final(self).next_subscriber.0 == old(self).next_subscriber.0 && final(self).next_subscriber.1 == old(self).next_subscriber.1 + 1, // [tokens-never-reused]
 //@|         old(self).state is InUse ==> final(self).node_count() == old(self).node_count() + 1, // [linked-observer-bumps-node-handler-count]
 //@|         old(self).state is Created ==> final(self).node_count() == old(self).node_count(), // [unlinked-observer-counted-when-linked]
-//@|         final(self).state == old(self).state && final(self).id == old(self).id, // [frame]
+//@|         final(self).state == lc_keep(old(self).state) && final(self).id == old(self).id, // [model-step-keep]
 //@end
 
 //@extract fn InternalObserver::unsubscribe
@@ -274,7 +275,7 @@ impl InternalObserver {
 //@|         (token.0 == old(self).id && old(self).alive()) ==> final(self).handlers() == old(self).handlers().remove(token), // [exactly-that-handler-removed]
 //@|         (token.0 == old(self).id && old(self).state is InUse) ==> final(self).node_count() == old(self).node_count() - (if old(self).handlers().contains_key(token) { 1int } else { 0int }), // [linked-observer-drops-node-handler-count-iff-a-handler-was-registered-under-the-token]
 //@|         (token.0 == old(self).id && old(self).state is Created) ==> final(self).node_count() == old(self).node_count(), // [unlinked-observer-not-counted]
-//@|         final(self).state == old(self).state && final(self).id == old(self).id && final(self).next_subscriber == old(self).next_subscriber, // [frame]
+//@|         final(self).state == lc_keep(old(self).state) && final(self).id == old(self).id && final(self).next_subscriber == old(self).next_subscriber, // [model-step-keep]
 //@end
 
 //@extract fn InternalObserver::add_to_observed_node
@@ -406,6 +407,68 @@ impl StateObservers {
 //@|         self.keyed_by_id(), !self.all_observers@.contains_key(token.0), self.knows(token.0), *new_obs == self.new_observers,
 //@|         forall|j: int| 0 <= j < vx_it.index@ ==> !(weak_target(#[trigger] &self.new_observers@[j]) is Some && weak_target(&self.new_observers@[j]).unwrap().id == token.0),
 //@end
+}
+
+// ---- C10, composed: the lifecycle as an automaton over the state field.  Each contract above ends in the clause
+//      `final(self).state == lc_<op>(old(self).state)` (tagged model-step-*), the two transitions made by state.rs are
+//      pinned by frame obligations (InUse only in add_new_observers, Unlinked only in disallow_future_use /
+//      unlink_disallowed_observers), so the lemmas below are about the real handle. ----
+spec fn lc_disallow(s: ObserverState) -> ObserverState {
+    match s { ObserverState::Created => ObserverState::Unlinked, ObserverState::InUse => ObserverState::Disallowed, x => x }
+}
+spec fn lc_link(s: ObserverState) -> ObserverState { match s { ObserverState::Created => ObserverState::InUse, x => x } }       // add_new_observers
+spec fn lc_unlink(s: ObserverState) -> ObserverState { match s { ObserverState::Disallowed => ObserverState::Unlinked, x => x } } // unlink_disallowed_observers
+spec fn lc_keep(s: ObserverState) -> ObserverState { s }                                                                          // subscribe / unsubscribe / reads
+spec fn lc_rank(s: ObserverState) -> int {
+    match s { ObserverState::Created => 0, ObserverState::InUse => 1, ObserverState::Disallowed => 2, ObserverState::Unlinked => 3 }
+}
+spec fn lc_dead(s: ObserverState) -> bool { s is Disallowed || s is Unlinked }
+pub enum LcOp { Disallow, Link, Unlink, Keep }
+spec fn lc_step(s: ObserverState, op: LcOp) -> ObserverState {
+    match op { LcOp::Disallow => lc_disallow(s), LcOp::Link => lc_link(s), LcOp::Unlink => lc_unlink(s), LcOp::Keep => lc_keep(s) }
+}
+spec fn lc_run(s: ObserverState, ops: Seq<LcOp>) -> ObserverState
+    decreases ops.len(),
+{
+    if ops.len() == 0 { s } else { lc_run(lc_step(s, ops[0]), ops.drop_first()) }
+}
+
+/// over every sequence of operations the lifecycle only moves forward (Created -> InUse -> Disallowed -> Unlinked,
+/// or Created -> Unlinked), a dead observer stays dead (so every clone keeps returning Disallowed and subscribing keeps
+/// failing, by the contracts of value_inner / subscribe), and an observer can only be InUse after a Link, i.e. after a
+/// stabilise (so it is NeverStabilised until then).
+proof fn lemma_lifecycle(s: ObserverState, ops: Seq<LcOp>)
+    ensures
+        lc_rank(lc_run(s, ops)) >= lc_rank(s),
+        lc_dead(s) ==> lc_dead(lc_run(s, ops)),
+        (s is Created && lc_run(s, ops) is InUse) ==> ops.contains(LcOp::Link),
+        (s is Created && !ops.contains(LcOp::Link) && !ops.contains(LcOp::Disallow)) ==> lc_run(s, ops) is Created,
+    decreases ops.len(),
+{
+    if ops.len() > 0 {
+        let s1 = lc_step(s, ops[0]);
+        lemma_lifecycle(s1, ops.drop_first());
+        let rest = ops.drop_first();
+        if rest.contains(LcOp::Link) {
+            let i = choose|i: int| 0 <= i < rest.len() && rest[i] == LcOp::Link;
+            assert(ops[i + 1] == LcOp::Link);
+        }
+        if ops[0] == LcOp::Link { assert(ops.contains(LcOp::Link)); }
+        assert(forall|o: LcOp| rest.contains(o) ==> ops.contains(o)) by {
+            assert forall|o: LcOp| rest.contains(o) implies ops.contains(o) by {
+                let i = choose|i: int| 0 <= i < rest.len() && rest[i] == o;
+                assert(ops[i + 1] == o);
+            }
+        }
+        if s is Created && !ops.contains(LcOp::Link) && !ops.contains(LcOp::Disallow) {
+            assert(ops[0] != LcOp::Link && ops[0] != LcOp::Disallow) by {
+                if ops[0] == LcOp::Link { assert(ops.contains(LcOp::Link)); }
+                if ops[0] == LcOp::Disallow { assert(ops.contains(LcOp::Disallow)); }
+            }
+            assert(s1 is Created);
+            assert(!rest.contains(LcOp::Link) && !rest.contains(LcOp::Disallow));
+        }
+    }
 }
 
 /// C11 (handler-count clause) / C09 bookkeeping, composed from the four contracts above: over any sequence of
